@@ -206,6 +206,52 @@ let cmd_query (graph_file : string) =
        | _ -> failwith ("query: bad line " ^ l))
   in loop ()
 
+(* render <graph-file>: stdin lines "<id> <hex query> <hex key>,<hex key>,..." where the keys are the
+   implementation's reported combinations in ITS order ("file:line:snippet|..." as pr_entity prints them, "-" for none).
+   Prints the JSON document for the model's results put in that order, and the text block of every combination. *)
+let cmd_render (graph_file : string) =
+  let ic = open_in graph_file in
+  let nodes = ref [] in
+  (try while true do
+       let l = input_line ic in
+       if String.length l > 5 && String.sub l 0 5 = "NODE " then nodes := node_of_line l :: !nodes
+     done with End_of_file -> ());
+  close_in ic;
+  let g = List.rev !nodes in
+  let rec loop () =
+    match read_line_opt () with
+    | None -> ()
+    | Some l when l = "" -> loop ()
+    | Some l ->
+      (match words l with
+       | [id; qh; keys] ->
+         let s = bytes_of_hex qh in
+         (match process_query s g with
+          | SyntaxError -> Printf.printf "RENDER %s reject\n" id
+          | Answer a ->
+            let pairs = List.combine a.a_results a.a_rows in
+            let key t = String.concat "|" (List.map pr_entity t) in
+            let want = if keys = "-" then [] else List.map unhex (String.split_on_char ',' keys) in
+            (* reorder: for each wanted key the first unused model combination with that key *)
+            let pool = ref (List.map (fun (t, r) -> (key t, (t, r), ref false)) pairs) in
+            let ok = ref (List.length want = List.length pairs) in
+            let ordered = List.filter_map (fun k ->
+                match List.find_opt (fun (k', _, used) -> k' = k && not !used) !pool with
+                | Some (_, p, used) -> used := true; Some p
+                | None -> ok := false; None) want in
+            if not !ok then Printf.printf "RENDER %s mismatch\n" id
+            else begin
+              let rs = List.map fst ordered and rows = List.map snd ordered in
+              Printf.printf "RENDER %s json=%s text=%s\n" id (opt hexb (render_json rs rows)) (opt hexb (render_text rs rows))
+            end;
+            List.iter (fun (t, r) ->
+                match text_rows [r] with
+                | Some [tr] -> Printf.printf "RBLOCK %s %s\n" id (hexb (text_tuple t tr))
+                | _ -> Printf.printf "RBLOCK %s ~\n" id) pairs);
+         loop ()
+       | _ -> failwith ("render: bad line " ^ l))
+  in loop ()
+
 (* collect: local graphs in arrival order on stdin ("LOCAL" then "L <line>" ...), merged graph on stdout *)
 let cmd_collect () =
   let locals = ref [] and cur_n = ref [] and cur_e = ref [] and started = ref false in
@@ -307,4 +353,5 @@ let () =
   | [_; "bundle"; d] -> cmd_bundle d
   | [_; "collect"] -> cmd_collect ()
   | [_; "query"; g] -> cmd_query g
+  | [_; "render"; g] -> cmd_render g
   | _ -> prerr_endline "usage: model build < cases | model query <graph> < queries"; exit 2
